@@ -28,6 +28,9 @@ type SpecEnv struct {
 	atCallSite bool            // a callee's contract instantiated at a call: res() of the callee's own calls is unknown
 	skip     *bool             // set when the clause cannot be expressed in this context
 	oldVars  map[string]*Val   // parameter values at function entry (for old())
+	prevVal  func(name string) *Val // start-of-iteration values (loopback sites)
+	prevState *State
+	siteDominated func(callee string, n int) bool // structural: is this site dominated by that call?
 	forced   map[string]bool   // names whose binding in vars overrides program-point resolution (loop phis)
 }
 
@@ -102,6 +105,9 @@ func (e *SpecEnv) inOld() *SpecEnv {
 
 func (e *SpecEnv) lookupType(name string) types.Type {
 	name = strings.TrimSpace(name)
+	for strings.HasPrefix(name, "(") && strings.HasSuffix(name, ")") {
+		name = strings.TrimSpace(name[1 : len(name)-1])
+	}
 	if strings.HasPrefix(name, "*") {
 		t := e.lookupType(name[1:])
 		if t == nil {
@@ -256,6 +262,14 @@ func (e *SpecEnv) eval(x ast.Expr) *Val {
 		}
 		return e.fail("unsupported literal %s", x.Value)
 	case *ast.UnaryExpr:
+		if x.Op == token.AND {
+			// address of a location: &p.f
+			pl := e.placeExpr(x.X)
+			if pl == nil {
+				return e.fail("cannot take the address of %s", exprText(x.X))
+			}
+			return &Val{T: types.NewPointer(pl.typ()), Place: pl}
+		}
 		v := e.eval(x.X)
 		switch x.Op {
 		case token.NOT:
@@ -509,6 +523,30 @@ func (e *SpecEnv) call(x *ast.CallExpr) *Val {
 		v := arg(0)
 		e.fr.u.declareBitfieldGhost(e.sortOfVal(v))
 		return &Val{T: mathInt, S: app("bf_bit", v.S, arg(1).S), Math: true}
+	case "prev":
+		// prev(x): value of loop variable x at the start of the iteration (only at "at loopback n")
+		if e.prevVal != nil && len(x.Args) == 1 {
+			// evaluate the argument with loop variables bound to their start-of-iteration values
+			n := *e
+			n.resolve = e.prevVal
+			n.vars = map[string]*Val{}
+			n.forced = nil
+			if e.prevState != nil {
+				n.cur = e.prevState
+			}
+			return n.eval(x.Args[0])
+		}
+		return e.fail("prev() is only available at loopback sites")
+	case "dominatedBy":
+		if e.siteDominated != nil && len(x.Args) == 2 {
+			var n int
+			fmt.Sscanf(exprText2(x.Args[1]), "%d", &n)
+			if e.siteDominated(exprText(x.Args[0]), n) {
+				return &Val{T: boolT, S: "true"}
+			}
+			return &Val{T: boolT, S: "false"}
+		}
+		return e.fail("dominatedBy() is only available at call sites")
 	case "arg":
 		if lit, ok := x.Args[0].(*ast.BasicLit); ok && e.callArgs != nil {
 			var i int
@@ -560,13 +598,17 @@ func (e *SpecEnv) call(x *ast.CallExpr) *Val {
 			v := arg(i)
 			if pd.Type != "" {
 				if t := e.lookupTypeIn(p.Pkg, pd.Type); t != nil && t != mathInt {
-					v = &Val{T: t, S: e.fr.termOf(v), Place: nil, Math: v.Math}
+					if v.Place != nil && v.S == "" {
+						v = &Val{T: t, Place: v.Place}
+					} else {
+						v = &Val{T: t, S: e.fr.termOf(v), Place: nil, Math: v.Math}
+					}
 				}
 			}
 			vars[pd.Name] = v
 		}
 		n := &SpecEnv{fr: e.fr, vars: vars, cur: e.cur, old: e.old, pkg: e.pkgOf(p.Pkg), errs: e.errs, depth: e.depth + 1,
-			bound: e.bound, iterElem: e.iterElem, iterCount: e.iterCount, callArgs: e.callArgs, atCallSite: e.atCallSite, skip: e.skip}
+			bound: e.bound, iterElem: e.iterElem, iterCount: e.iterCount, callArgs: e.callArgs, atCallSite: e.atCallSite, skip: e.skip, siteDominated: e.siteDominated}
 		return n.eval(p.Body.Expr)
 	}
 	if sf, ok := u.C.Specs[fname]; ok {
@@ -658,8 +700,8 @@ func (e *SpecEnv) quant(kind string, x0 *ast.CallExpr) *Val {
 		}
 		return "(! " + body + " " + strings.Join(pats, " ") + ")"
 	}
-	if len(x.Args) == 4 {
-		id, ok := x.Args[0].(*ast.Ident)
+	if id0, isIdent := x.Args[0].(*ast.Ident); len(x.Args) == 4 && isIdent {
+		id, ok := id0, true
 		if !ok {
 			return e.fail("%s: first argument must be an identifier", kind)
 		}
